@@ -284,6 +284,11 @@ def _r1(ctx, rm, pkg, allv):
                 continue
             n += 1
             key = f"{cls}.rateexpr:{v.text}"
+            decs = [ast.unparse(d) for d in rm.flow(cls, "rateexpr")[1].decorator_list]
+            if not v.beautified and decs:
+                # (a decorator may be what cleans the returned string: what it does with the result is not read here)
+                ctx.unrec("R1", key, (v.file, v.line), f"rateexpr is wrapped by the decorator(s) {decs}: whether the returned string is cleaned by _beautify is not visible")
+                continue
             ctx.check(v.beautified, "R1", key, (v.file, v.line),
                       "a signed coefficient directly follows a literal sign; the string is cleaned by _beautify before it is returned" if v.beautified else
                       f"coefficient placed directly after a literal sign ({risky[0][1]!r}) and the string is returned without _beautify: "
